@@ -10,6 +10,7 @@ package main
 import (
 	"context"
 	"fmt"
+	"math"
 	"os"
 	"path/filepath"
 	"slices"
@@ -86,6 +87,10 @@ type FV struct {
 	DepthOK  bool        `json:"depth_ok"`
 	Matched  bool        `json:"matched"`
 	Packages [][2]string `json:"packages"`
+	Nodes    []int       `json:"nodes"`      // subgraph end nodes
+	RootDist []int       `json:"root_dist"`  // distance of the root in each subgraph
+	Top      []*int64    `json:"top_scores"` // round(10*score) per top-level severity, null = unparsable
+	Aff      []*int64    `json:"aff_scores"` // ... per fallback (affected[]) severity
 }
 
 // Analysis mirrors gr.VerifC12Analysis in plain data.
@@ -94,6 +99,8 @@ type Analysis struct {
 	All         []FV     `json:"all"`
 	Kept        []string `json:"kept"`
 	IgnoreAfter []string `json:"ignore_after"`
+	NumNodes    int      `json:"num_nodes"`
+	Edges       [][2]int `json:"edges"`
 }
 
 // Upd / Vuln / Patch mirror the result package.
@@ -220,10 +227,27 @@ func convAnalysis(sys resolve.System, a *gr.VerifC12Analysis) Analysis {
 	var out Analysis
 	out.Reqs = convReqs(sys, a.Reqs)
 	for _, v := range a.All {
-		out.All = append(out.All, FV{ID: v.ID, Aliases: v.Aliases, DevOnly: v.DevOnly, SevOK: v.SevOK, DepthOK: v.DepthOK, Matched: v.Matched, Packages: convPkgs(v.Packages)})
+		out.All = append(out.All, FV{ID: v.ID, Aliases: v.Aliases, DevOnly: v.DevOnly, SevOK: v.SevOK, DepthOK: v.DepthOK, Matched: v.Matched, Packages: convPkgs(v.Packages),
+			Nodes: v.Nodes, RootDist: v.RootDist, Top: tenths(v.TopScores), Aff: tenths(v.AffScores)})
 	}
+	out.NumNodes = a.NumNodes
+	out.Edges = a.Edges
 	out.Kept = slices.Clone(a.Kept)
 	out.IgnoreAfter = slices.Clone(a.IgnoreAfter)
+	return out
+}
+
+// tenths is round(10*score), the quantity matchSeverity compares (math.Round as in match.go).
+func tenths(ss []gr.VerifC12Score) []*int64 {
+	out := make([]*int64, 0, len(ss))
+	for _, s := range ss {
+		if !s.Valid {
+			out = append(out, nil)
+			continue
+		}
+		t := int64(math.Round(10 * s.Score))
+		out = append(out, &t)
+	}
 	return out
 }
 
@@ -235,6 +259,18 @@ func (o Opts) remediation() options.RemediationOptions {
 	ro.MinSeverity = o.MinSeverity
 	ro.MaxDepth = o.MaxDepth
 	ro.UpgradeConfig = upgrade.NewConfig()
+	for p, l := range o.Upgrade {
+		switch l {
+		case "major":
+			ro.UpgradeConfig.Set(p, upgrade.Major)
+		case "minor":
+			ro.UpgradeConfig.Set(p, upgrade.Minor)
+		case "patch":
+			ro.UpgradeConfig.Set(p, upgrade.Patch)
+		case "none":
+			ro.UpgradeConfig.Set(p, upgrade.None)
+		}
+	}
 	ro.MavenManagement = o.MavenManagement
 	return ro
 }
